@@ -48,6 +48,9 @@ fn c20_strategy() -> impl Strategy<Value = Scenario> {
             freeze_polls: false,
         initial_pending: vec![],
         ds_read_faults: vec![],
+        initial_succeeded: vec![],
+        cfg_later: None,
+        notif_stall: false,
         })
 }
 
